@@ -144,7 +144,9 @@ def run_container(prop, kind, tier, seed, cc=False, own_clauses=None, foreign=CC
                                          seed=seed + n, full=full, cc=cc, copies=True, queries=queries,
                                          plan=plan, exhaustive_derive=exhaustive_derive)
             for m, (_, origin) in zip(meta, lst):
-                m.update({"weighted": weighted, "n": n, "origin": origin, "kind": kind})
+                m.update({"weighted": weighted, "n": n, "origin": origin, "kind": kind,
+                          "replay_args": {"full": full, "cc": cc, "copies": True, "queries": queries, "plan": plan,
+                                          "exhaustive_derive": exhaustive_derive}})
             all_traces += traces
             all_meta += meta
         trep += time.time() - t1
@@ -190,6 +192,31 @@ def judge(res, prop, kind, traces, meta, v, own_clauses=None, foreign=(), own_op
             kind, ",".join(mine), ev["op"]["op"], l, len(traces[t]), meta[t]["labels"])
         payload = {"kind": kind, "weighted": meta[t]["weighted"], "n": meta[t]["n"], "family": meta[t]["family"],
                    "replay_seed": meta[t]["seed"], "calls": meta[t]["ops"], "failing_event_index": l,
-                   "failing_call": ev["op"], "logged_state": ev["st"], "origin": meta[t]["origin"]}
+                   "failing_call": ev["op"], "logged_state": ev["st"], "origin": meta[t]["origin"],
+                   "replay_args": meta[t].get("replay_args", {})}
         res.reject(sig, what, payload)
     res.cov(rejected_events=len(v["rejects"]), rejected_traces=len(first), rejections_of_other_property=other_prop)
+
+
+def replay_container(prop, path):
+    """re-execute the calls of a replay file against /repo's current tree and re-validate them with TLC"""
+    import json
+    with open(path) as f:
+        rp = json.load(f)
+    p = rp["payload"]
+    ra = dict(p.get("replay_args") or {})
+    if ra.get("plan"):
+        ra["plan"] = {k: (tuple(v) if isinstance(v, list) else v) for k, v in ra["plan"].items()}
+    r = C.Replayer(p["kind"], p["weighted"], p["n"], p["family"], seed=p["replay_seed"], **ra)
+    trace = r.run(p["calls"])
+    v = C.validate(p["kind"], [trace], procs=1)
+    wanted = set(rp["signature"].get("clauses", []))
+    hit = [(l, f) for (_, l, f) in v["rejects"] if wanted & set(f)]
+    for (_, l, f) in v["rejects"]:
+        print("event %d (%s): failing clauses %s" % (l, trace[l]["op"]["op"], ",".join(f)))
+    if hit:
+        print("VIOLATION property=%s replay=%s" % (prop, path))
+        return 1
+    print("replay of %s: the recorded violation does not reproduce on the current tree (%d events validated)"
+          % (path, v["events"]))
+    return 0
